@@ -515,7 +515,7 @@ func init() {
 		Level: "exploration",
 		Rule: "runs with 1..16 callers issuing gets, puts, batches and scans while Close is issued at a hook-selected point " +
 			"{right before a dial (establisher held at its log statement until Close returned), during a dial, during the " +
-			"region probe, during a meta lookup, during retry back-off, with ZooKeeper failing, with ZooKeeper silent until after Close, with a scanner open, during " +
+			"region probe, during a meta lookup, during retry back-off, at the start of a 4.096 s back-off sleep (the call must be back within 2 s of Close), while an establisher sleeps between failed dials, after a connection lost its only region, with ZooKeeper failing, with ZooKeeper silent until after Close, with a scanner open, during " +
 			"batches} or at a seeded instant; judged: Close returns, calls in flight and later calls return with the " +
 			"client-closed error, all dialled connections closed at quiescence, no dial, no ZooKeeper lookup and no successful write on any connection " +
 			"after all calls returned (observed on the client's side), no client goroutine left, second Close harmless. distinct = close point x callers x " +
